@@ -153,3 +153,17 @@ func zzRequest(typ message.Type, mid int32, code codes.Code, token message.Token
 func zzWaitWritten(s *zzSession, n int) {
 	symWaitUntil(func() bool { return len(s.written) >= n })
 }
+
+func zzBlockOpt(num int64, more bool) uint32 {
+	v, _ := blockwise.EncodeBlockOption(blockwise.SZX16, num, more)
+	return v
+}
+
+func zzBigBody(n int, seed byte) []byte {
+	b := make([]byte, n)
+	for i := range b {
+		b[i] = seed + byte(i)
+	}
+	return b
+}
+
